@@ -13,7 +13,7 @@ def key(case, variant, tag, step):
 
 def variants(idx):
     return dict(engine=["pickle", "csv"][idx % 2], shuffle=[False, 3, False, True][idx % 4], batchsize=[1, 2, 5][idx % 3],
-                nan_point=(idx % 3 == 1))
+                nan_point=(idx % 3 == 1), flip_keys=(idx % 5 in (1, 2)))
 
 
 def random_choice_runs(rep, n):
@@ -22,7 +22,7 @@ def random_choice_runs(rep, n):
     import numpy as np
     rnd = random.Random(rep.seed)
     for i in range(n):
-        w = harvest.SWorld(variants(i))
+        w = harvest.SWorld(dict(variants(i), flip_keys=False))
         try:
             np.random.seed(rep.seed + i)
             prev = []
